@@ -9,4 +9,8 @@ for FS in "none:" "pt:package-type" "default:package-type,smartstring" "serde:pa
     N=${FS%%:*}; F=${FS#*:}
     cargo build --release --offline --no-default-features --features "$F" --target-dir "target/$N"
 done
+# libFuzzer targets of the thorough tier (C01, C06). The quick tier does not need them, so a
+# failure here (e.g. no nightly toolchain) is reported but does not fail the setup; the thorough
+# checks rebuild the targets themselves and report exit 2 if that is impossible.
+cd "$ROOT/harness" && (cargo +nightly fuzz build >/dev/null 2>&1 && echo "fuzz targets built") || echo "WARNING: cargo +nightly fuzz build failed; the thorough tier of C01/C06 will be inconclusive"
 echo "setup ok"
